@@ -19,9 +19,10 @@ META = {
         'element or provided by the parser (meta/text/external) - the basis of C18-R1; R4 scan_lexicons delimits an attribute '
         'value by the quote it opened with, does not end a tag at a `>` inside a quoted value, decodes XML entities before '
         'returning values, and reads the same three element kinds the loader uses; R5 scan, pre-check and parse precede the '
-        'transaction (C06-R4).'),
+        'transaction (C06-R4); R6 dump() prints only constants, ElementTree serialisations and quoteattr()-quoted values, so '
+        'written files are well-formed whatever the stored values contain (shared with C02-R5).'),
     'decides': ['one header check', 'reader rejects unknown / repeated elements', 'required attributes asserted', 'scan = load on lexicon headers',
-                'parse before write'],
+                'parse before write', 'writer output well-formed'],
     'not_decided': ['element placement (DTD content models)', 'attribute value domains'],
     'assumptions': ['asserts are enabled (python -O is not used to load lexicons)'],
 }
@@ -451,10 +452,19 @@ def r5_parse_before_write(ctx, res):
     r4_parse_before_write(ctx, res)
 
 
+def r6_writer_wellformed(ctx, res):
+    """every file produced by dump() is accepted: what the writer prints is a constant, an ElementTree serialisation or a
+    quoteattr()-quoted value (the analysis of C02-R5, reported here for the acceptance clause), so no stored value can open
+    or close markup in the written file."""
+    from .c02 import r5_escaping
+    r5_escaping(ctx, res)
+
+
 RULES = [
     ('C20-R1', r1_header, 6),
     ('C20-R2', r2_reader_rejects, 6),
     ('C20-R3', r3_required_attributes, 45),
     ('C20-R4', r4_scan_equals_load, 7),
     ('C20-R5', r5_parse_before_write, 5),
+    ('C20-R6', r6_writer_wellformed, 7),
 ]
